@@ -59,7 +59,25 @@ def compute():
     return rows
 
 
+def apply_environment_knobs():
+    """harness-side knobs of the child process: wall clock offset, recursion limit, garbage collector"""
+    off = float(os.environ.get("XPROC_CLOCK_OFFSET", "0") or 0)
+    if off:
+        import time
+
+        _t, _tn = time.time, time.time_ns
+        time.time = lambda: _t() + off
+        time.time_ns = lambda: _tn() + int(off * 1e9)
+    if os.environ.get("XPROC_RECURSION"):
+        sys.setrecursionlimit(int(os.environ["XPROC_RECURSION"]))
+    if os.environ.get("XPROC_NOGC"):
+        import gc
+
+        gc.disable()
+
+
 if __name__ == "__main__":
+    apply_environment_knobs()
     sys.stdout = open(os.devnull, "w")
     rows = compute()
     blob = json.dumps(rows, ensure_ascii=True)
